@@ -253,10 +253,38 @@ where
   }
 }
 
-#[derive(Copy, Clone, PartialEq, Eq, Hash)]
+#[derive(Copy, Clone)]
 pub struct ObjectRef {
   /// Pointer to the header of the allocate
   ptr: NonNull<u8>,
+}
+
+impl PartialEq for ObjectRef {
+  /// Two references are equal if they point to the same object. A list that
+  /// outgrew its allocation leaves a forwarding header behind, references to
+  /// either header are the same list
+  #[inline]
+  fn eq(&self, other: &ObjectRef) -> bool {
+    self.ptr == other.ptr
+      || (self.is_kind(ObjectKind::List)
+        && other.is_kind(ObjectKind::List)
+        && self.to_list() == other.to_list())
+  }
+}
+
+impl Eq for ObjectRef {}
+
+impl Hash for ObjectRef {
+  /// A list has no address that is stable while it grows so all lists
+  /// hash alike and are told apart by equality
+  #[inline]
+  fn hash<H: Hasher>(&self, state: &mut H) {
+    if self.is_kind(ObjectKind::List) {
+      ObjectKind::List.hash(state);
+    } else {
+      self.ptr.hash(state);
+    }
+  }
 }
 
 impl ObjectRef {
